@@ -15,6 +15,9 @@ pub type Path = PathBuf;
 pub struct OsString { _p: () }
 #[verifier::external_body]
 pub struct TempDir { _p: () }
+impl OsString {
+    pub uninterp spec fn view(&self) -> Seq<char>;
+}
 impl RedoPathBuf {
     pub uninterp spec fn view(&self) -> Seq<char>;
     #[verifier::external_body]
